@@ -196,10 +196,10 @@ Lemma macro_le_cancel s : QInv s -> QInv (fst (p_run s (macro (Cmd LeCancel)))).
 Proof.
   intros Q. rewrite macro_run. cbn [p_step step_cmd].
   destruct (p_pend_le s) as [a|] eqn:P; cbn [fst].
-  - rewrite settle2_quiet; [|exact (q_to s Q)|exact (q_from s Q)].
-    constructor; cbn.
-    + exact (q_to s Q).
-    + exact (q_from s Q).
+  - unfold settle2. cbn [p_step p_to]. rewrite (q_to s Q). cbn [fst].
+    cbn [p_step p_from p_pend_le p_conns p_open p_to p_present p_peer_conn p_peer_req].
+    rewrite (q_from s Q). cbn [app fst].
+    constructor; cbn; try reflexivity.
     + apply close_NoDup. exact (q_nodup s Q).
     + intros p Hp. pose proof (q_open s Q p (close_In _ _ _ Hp)) as O.
       destruct p as [a'| | |]; cbn in *; auto.
@@ -461,3 +461,23 @@ Lemma cancel_concludes :
   let '(s, o) := p_run (p_init [2]) (settled [Cmd (LeCreate false 9); Cmd LeCancel; Cmd (LeCreate true 2); Adv 2]) in
   map out_code o = [[0; 8205; 0]; [1; 8206; 0]; [2; 2; 0; 9]; [0; 8259; 0]; [2; 0; 1; 2]] /\ p_open s = [].
 Proof. vm_compute. auto. Qed.
+
+(* ------------------------------------------------------------------ arbitrary interleavings, bounded *)
+Lemma p_run_cons s x xs : fst (p_run s (x :: xs)) = fst (p_run (fst (p_step s x)) xs).
+Proof.
+  cbn [p_run]. destruct (p_step s x) as [s1 o1]. cbn [fst]. destruct (p_run s1 xs) as [s2 o2]. reflexivity.
+Qed.
+
+(* the complete evaluation [all_ok d s] covers every schedule of at most d steps over the alphabet *)
+Lemma all_ok_spec d : forall s, all_ok d s = true ->
+  forall xs, (length xs <= d)%nat -> Forall (fun o => In o alphabet) xs ->
+  concludes (fst (p_run s xs)) = true.
+Proof.
+  induction d as [|d IH]; intros s A xs L F.
+  - destruct xs; [|cbn in L; lia]. cbn [p_run fst]. cbn [all_ok] in A.
+    apply andb_true_iff in A. apply A.
+  - cbn [all_ok] in A. apply andb_true_iff in A. destruct A as [A1 A2].
+    destruct xs as [|x xs]; [exact A1|].
+    rewrite p_run_cons. inversion F as [|? ? Hx F']; subst.
+    rewrite forallb_forall in A2. apply IH; [apply A2; exact Hx | cbn in L; lia | exact F'].
+Qed.
